@@ -51,6 +51,9 @@ pub enum Call {
     /// finish() (a forced frame, not counted) and then reset(): the redraw reset() asks for is an ordinary
     /// request of a running bar at position 0
     FinishReset,
+    /// unset_length() on a bar that has a length, set_length(the old one) on a bar that has none: ordinary
+    /// redraw requests like set_length
+    ToggleLength,
 }
 
 #[derive(Debug, Clone, Serialize, Deserialize)]
@@ -86,11 +89,13 @@ struct Bar {
     pos: u64,
     len: u64,
     msg: u64,
+    /// unset_length() was the last length call: {len} shows the position
+    no_len: bool,
 }
 
 impl Bar {
     fn line(&self) -> String {
-        format!("{} {}|{}|m{}", self.tag, self.pos, self.len, self.msg)
+        format!("{} {}|{}|m{}", self.tag, self.pos, if self.no_len { self.pos } else { self.len }, self.msg)
     }
 }
 
@@ -108,7 +113,7 @@ fn run_rate(c: &RateCase) -> CaseResult {
     if c.mode % 4 == 0 {
         let pb = ProgressBar::with_draw_target(Some(len0), target).with_message("m0");
         pb.set_style(mk("A"));
-        bars.push(Bar { pb, tag: "A", pos: 0, len: len0, msg: 0 });
+        bars.push(Bar { pb, tag: "A", pos: 0, len: len0, msg: 0, no_len: false });
     } else {
         // (mode 3: the MultiProgress is created hidden, gets its members, and is given the terminal afterwards)
         let mut target = Some(target);
@@ -123,7 +128,7 @@ fn run_rate(c: &RateCase) -> CaseResult {
         for tag in ["A", "B"] {
             let pb = m.add(ProgressBar::with_draw_target(Some(len0), ProgressDrawTarget::hidden()).with_message("m0"));
             pb.set_style(mk(tag));
-            bars.push(Bar { pb, tag, pos: 0, len: len0, msg: 0 });
+            bars.push(Bar { pb, tag, pos: 0, len: len0, msg: 0, no_len: false });
         }
         if let Some(t) = target.take() {
             m.set_draw_target(t);
@@ -150,7 +155,7 @@ fn run_rate(c: &RateCase) -> CaseResult {
             near_multiple |= *k % 25 > 0;
         }
         let bi = if c.mode % 4 == 2 { i % 2 } else { 0 };
-        let call = &if c.full && matches!(call, Call::Inc | Call::SetPosition | Call::Dec | Call::SetLength | Call::Update) { Call::SetSameLength } else { *call };
+        let call = &if c.full && matches!(call, Call::Inc | Call::SetPosition | Call::Dec | Call::SetLength | Call::Update | Call::ToggleLength | Call::FinishReset) { Call::SetSameLength } else { *call };
         let mut before = vt.nflush();
         if let Call::NestedUpdate(inner) = call {
             if bars.len() < 2 {
@@ -230,9 +235,21 @@ fn run_rate(c: &RateCase) -> CaseResult {
                 }
                 Call::SetLength => {
                     b.len += 1;
+                    b.no_len = false;
                     b.pb.set_length(b.len);
                 }
-                Call::SetSameLength => b.pb.set_length(b.len),
+                Call::SetSameLength => {
+                    b.no_len = false;
+                    b.pb.set_length(b.len)
+                }
+                Call::ToggleLength => {
+                    if b.no_len {
+                        b.pb.set_length(b.len);
+                    } else {
+                        b.pb.unset_length();
+                    }
+                    b.no_len = !b.no_len;
+                }
                 Call::IncZero => b.pb.inc(0),
                 Call::Inc => {
                     b.pos += 1;
@@ -320,6 +337,7 @@ fn run_rate(c: &RateCase) -> CaseResult {
     v.label_if(c.mode % 4 != 0, "multi_progress_target");
     v.label_if(c.full, "bar_complete_the_whole_time");
     v.label_if(c.calls.iter().any(|(_, c)| matches!(c, Call::FinishReset)), "reset_of_a_finished_bar");
+    v.label_if(c.calls.iter().filter(|(_, c)| matches!(c, Call::ToggleLength)).count() >= 2, "length_unset_and_set_again");
     Ok(v)
 }
 
@@ -342,7 +360,7 @@ fn rate_strategy(tier: Tier) -> BoxedStrategy<RateCase> {
     let n = tier.pick(400, 2000);
     let call = prop_oneof![4 => Just(Call::Tick), 2 => Just(Call::SetMessage), 1 => Just(Call::SetLength), 1 => Just(Call::SetSameLength), 3 => Just(Call::Inc), 1 => Just(Call::SetPosition), 1 => Just(Call::Dec)];
     let rate = || prop_oneof![2 => prop_oneof![Just(1u8), Just(3), Just(7), Just(20), Just(30), Just(60), Just(255)], 1 => 1u8..=255];
-    let call = prop_oneof![28 => call, 2 => Just(Call::FinishReset), 2 => Just(Call::IncZero), 3 => Just(Call::Update), 1 => Just(Call::SteadyZero), 1 => Just(Call::SteadyOff), 1 => Just(Call::DropDecoy), 3 => gap_strategy().prop_map(Call::NestedUpdate)];
+    let call = prop_oneof![28 => call, 2 => Just(Call::FinishReset), 2 => Just(Call::ToggleLength), 2 => Just(Call::IncZero), 3 => Just(Call::Update), 1 => Just(Call::SteadyZero), 1 => Just(Call::SteadyOff), 1 => Just(Call::DropDecoy), 3 => gap_strategy().prop_map(Call::NestedUpdate)];
     let free = (rate(), 0u8..4, proptest::collection::vec((gap_strategy(), call.clone()), 30..n), proptest::bool::weighted(0.15)).prop_map(|(rate, mode, calls, full)| RateCase { full, rate, mode, calls });
     // the burst is used up at the creation instant, then requests arrive exactly at, one ns before and
     // one ns after whole refresh intervals (the boundary of "at least one refresh interval after the
@@ -722,7 +740,7 @@ pub fn property() -> Property {
                 cases: |t| t.pick(1_500, 48_000),
                 run: run_rate,
                 signature: no_signature,
-                essential: &["skipped_draw", "burst_exhausted", "gap_at_interval_multiple", "refill_after_long_gap", "multi_progress_target", "reset_of_a_finished_bar"],
+                essential: &["skipped_draw", "burst_exhausted", "gap_at_interval_multiple", "refill_after_long_gap", "multi_progress_target", "reset_of_a_finished_bar", "length_unset_and_set_again"],
                 workers: w,
                 decode: Some(decode_rate),
             }),
